@@ -1,5 +1,6 @@
 import Lemmas.Diff.ConvergeSchema
 import Lemmas.Diff.Callable
+import Lemmas.Diff.Batch
 /-!
 # C06 — autogenerate is quiet on a matching database and converges in one pass (SQLite)
 
@@ -322,5 +323,112 @@ theorem quiet_partial_deferring (cfg : Cfg) (a : Schema) (hwf : WF a) (hok : Sch
 theorem converge_partial_deferring (cfg : Cfg) (a b : Schema) (hwfA : WF a) (hwfB : WF b) (hok : SchemaOk cfg b) :
     diffV {} cfg (reflect (applyAll (createAll a) (diffV {} cfg (reflect (createAll a)) b))) b = [] := by
   rw [diffV_nil, diffV_nil]; exact converge_partial cfg a b hwfA hwfB hok
+
+end C06
+
+/-! ### class boundary (primary keys) and the batch recreate decision -/
+namespace C06
+open Model.Diff Spec.Diff Lemmas.Diff
+
+/-- the class of C06 pairs as one predicate: both schemas well-formed, the target inside the class for
+the settings, and no surviving column changes primary-key membership (`PkStable`; the harness's
+`pair_wf` evaluates its decidable form through the driver's `pkStableB`) -/
+structure PairOk (cfg : Cfg) (a b : Schema) : Prop where
+  wfA : WF a
+  wfB : WF b
+  ok : SchemaOk cfg b
+  pk : PkStable a b
+
+theorem pkStableB_iff (a b : Schema) : pkStableB a b = true ↔ PkStable a b := Spec.Diff.pkStableB_iff a b
+
+/-- **C06.converge** stated over the pair class -/
+theorem converge_of_pairOk (cfg : Cfg) (a b : Schema) (h : PairOk cfg a b) :
+    diff cfg (reflect (applyAll (createAll a) (diff cfg (reflect (createAll a)) b))) b = [] :=
+  converge_partial cfg a b h.wfA h.wfB h.ok
+
+example : PkStable witness witness := by
+  intro ta hta tb htb _ ca hca cb hcb hc
+  simp [witness] at hta htb
+  subst hta; subst htb
+  simp at hca hcb
+  subst hca; subst hcb
+  rfl
+
+/-- a pair outside the class: `c` is a key column in the first schema and an ordinary column in the second -/
+example : pkStableB
+    [{ name := "t", cols := [{ name := "c", ty := { fam := .Integer, args := [] }, nullable := false, pk := true }] }]
+    [{ name := "t", cols := [{ name := "c", ty := { fam := .Integer, args := [] }, nullable := false, pk := false }] }] = false := by
+  decide
+
+/-- **the batch recreate decision is order independent** (`SQLiteImpl.requires_recreate_in_batch` is an
+`any` over the operations of the block): permuting the operations does not change it -/
+theorem batch_decision_perm {l1 l2 : List Op} (h : l1.Perm l2) : batchRecreates l1 = batchRecreates l2 :=
+  batchRecreates_perm h
+
+/-- ... and an operation that needs move-and-copy decides it wherever it stands in the block, e.g. after
+added columns with plain string defaults (no early exit) -/
+theorem batch_decision_any (pre post : List Op) (o : Op) (h : needsRecreate o = true) :
+    batchRecreates (pre ++ o :: post) = true := batchRecreates_of_mem pre post o h
+
+example : batchRecreates
+    [Op.addColumn "t" { name := "n", ty := { fam := .String, args := [10] }, nullable := true, dflt := some (.str ['a']) },
+     Op.modifyNullable "t" "c" false] = true := by decide
+example : batchRecreates
+    [Op.addColumn "t" { name := "n", ty := { fam := .String, args := [10] }, nullable := true, dflt := some (.str ['a']) },
+     Op.addIndex "t" { name := "ix", cols := ["n"], unique := false }] = false := by decide
+
+end C06
+
+namespace C06
+open Model.Diff Spec.Diff Lemmas.Diff
+
+theorem alter_pk (cfg : Cfg) (r : RCol) (c : Col) (k : DCol) : (alter cfg r c k).pk = k.pk := rfl
+
+/-- **primary keys need no change inside the class**: for a pair with `PkStable`, every column of the
+upgraded database that the target model also has carries the target's primary-key flag - the one
+attribute autogenerate neither compares nor alters -/
+theorem pk_preserved (cfg : Cfg) (a b : Schema) (hwfA : WF a) (hwfB : WF b) (hpk : PkStable a b)
+    (n : String) (dt : DTable) (tb : Table) (c : Col) (k : DCol)
+    (hd : tblOf (applyAll (createAll a) (diff cfg (reflect (createAll a)) b)) n = some dt)
+    (hb : findTable b n = some tb) (hc : c ∈ tb.cols) (hk : colOf dt.cols c.name = some k) : k.pk = c.pk := by
+  have hT := tblOf_final cfg a b hwfA hwfB n
+  rw [hd, hb] at hT
+  simp only [Option.some.injEq] at hT
+  have htb := (findTable_some_iff b hwfB.tables_nodup n tb).mp hb
+  have hnd := (hwfB.table_wf tb htb.1).cols_nodup
+  cases ha : findTable a n with
+  | some ta =>
+    rw [ha] at hT
+    simp only at hT
+    subst hT
+    have hta := (findTable_some_iff a hwfA.tables_nodup n ta).mp ha
+    have hcol := colOf_transform cfg (createTable ta) tb hnd c.name
+    rw [find?_self_of_nodup tb.cols hnd c hc, hk] at hcol
+    simp only [Option.some.injEq] at hcol
+    cases h0 : colOf (createTable ta).cols c.name with
+    | none => rw [h0] at hcol; simp only at hcol; rw [hcol]; rfl
+    | some k0 =>
+      rw [h0] at hcol
+      simp only at hcol
+      rw [hcol, alter_pk]
+      -- k0 is the created column of a model column of `ta` with the same name
+      unfold colOf at h0
+      have hmem := List.mem_of_find?_eq_some h0
+      have hname : k0.name = c.name := by simpa using List.find?_some h0
+      simp only [createTable, List.mem_map] at hmem
+      obtain ⟨ca, hca, rfl⟩ := hmem
+      exact hpk ta hta.1 tb htb.1 (hta.2.trans htb.2.symm) ca hca c hc hname
+  | none =>
+    rw [ha] at hT
+    simp only at hT
+    subst hT
+    have hf := foldl_named_fields (compareIxUq tb.name true [] (namedOf tb.uqs tb.ixs)) { createTable tb with ixs := [] }
+      (fun op hop => (compareIxUq_ops _ _ _ _ op hop).1)
+    have hcols : (newTable tb).cols = tb.cols.map createCol := hf.1
+    rw [hcols] at hk
+    unfold colOf at hk
+    rw [find?_map_key createCol (·.name) (·.name) (fun _ => rfl) c.name tb.cols, find?_self_of_nodup tb.cols hnd c hc] at hk
+    simp only [Option.map_some, Option.some.injEq] at hk
+    rw [← hk]; rfl
 
 end C06
